@@ -21,8 +21,8 @@ theorem TLoc_transfer {σ σ' : St} {y : Th} (L : TLoc σ y)
     (hnila : y.pc.addPC = true → σ.cl y.ns = [] → σ'.cl y.ns = [])
     (hest : σ.est y.s = true → σ'.est y.s = true)
     (hsing : y.pc ≠ .idle → σ.cl y.s = [y.g] → σ'.cl y.s = [y.g]) : TLoc σ' y := by
-  obtain ⟨l1, l2, l3, l4, l5, l6, ls, l7, l8, l9, l10, l11, l12, l13, l14, l15, l16, l17, l18, l19, l20⟩ := L
-  refine ⟨?_, l2, ?_, l4, ?_, l6, ?_, ?_, ?_, ?_, ?_, ?_, ?_, ?_, ?_, ?_, ?_, ?_, ?_, ?_, ?_⟩
+  obtain ⟨l1, l2, l3, l4, l5, l6, ls, l7, l8, l9, l10, l11, l12, l13, l14, l15, l16, l17, l18, l19, l20, l22⟩ := L
+  refine ⟨?_, l2, ?_, l4, ?_, l6, ?_, ?_, ?_, ?_, ?_, ?_, ?_, ?_, ?_, ?_, ?_, ?_, ?_, ?_, ?_, l22⟩
   · intro h; rw [hg h]; exact l1 h
   · intro h h2; rw [hg h]; exact l3 h h2
   · intro h h2
